@@ -570,6 +570,13 @@ pub struct IngestCase {
     pub compaction_threads: u8,
     pub key_sel: Vec<u8>,
     pub perturb: Vec<Vec<u8>>,
+    /// number of overlapping files sunk into the tree (single-threaded, step mode) before the
+    /// threads start, so that compaction outputs cannot simply trickle down by trivial moves
+    #[serde(default)]
+    pub prefill: u8,
+    /// every ingested sst also contains the first key, so level-0 files always overlap
+    #[serde(default)]
+    pub common_key: bool,
 }
 
 pub struct ThreadedStall;
@@ -592,8 +599,10 @@ impl Property for ThreadedStall {
         // max_compaction_files stays at or above 32 so that the known finding R-P (the minimal L0
         // compaction exceeds max_compaction_files) is out of reach by construction: with at most
         // stall_files + in-flight ingests files in L0 and at most nkeys level-1 files
-        (1u8..5, 0u8..3, prop_oneof![Just(32u8), Just(64u8)], 1u8..5, 2u8..10, 1u8..5, 4u8..20, 1u8..4, prop::collection::vec(any::<u8>(), 64), prop::collection::vec(prop::collection::vec(any::<u8>(), 0..16), 8))
-            .prop_map(|(mandatory_files, extra, max_compaction_files, ingest_threads, ssts_per_thread, keys_per_sst, nkeys, compaction_threads, key_sel, perturb)| IngestCase {
+        (1u8..5, 0u8..3, prop_oneof![Just(32u8), Just(64u8)], 1u8..5, 2u8..10, 1u8..5, 4u8..20, 1u8..4, prop::collection::vec(any::<u8>(), 64), prop::collection::vec(prop::collection::vec(any::<u8>(), 0..16), 8), (prop_oneof![2 => Just(0u8), 1 => 1u8..8, 3 => 14u8..20], any::<bool>()))
+            .prop_map(|(mandatory_files, extra, max_compaction_files, ingest_threads, ssts_per_thread, keys_per_sst, nkeys, compaction_threads, key_sel, perturb, (prefill, common_key))| IngestCase {
+                prefill,
+                common_key,
                 stall_files: mandatory_files + extra,
                 mandatory_files,
                 max_compaction_files,
@@ -653,12 +662,49 @@ fn run_ingest(ctx: &Ctx, c: &IngestCase) -> Outcome {
         }
     };
     let universe = gens::universe(gens::KeyFamily::Dense, (c.nkeys as usize).max(1));
+    let ts = Arc::new(AtomicU64::new(1));
+    // prefill: sink overlapping files one by one (step mode, single-threaded)
+    if c.prefill > 0 {
+        verif::set_step_mode(true);
+        for i in 0..c.prefill as usize {
+            let path = root.join("ingest").join(format!("prefill-{i}.sst"));
+            let base = ts.fetch_add(3, Ordering::SeqCst);
+            let built = (|| -> Result<(), String> {
+                let mut b = sst::SstBuilder::new(sst::SstOptions::default(), &path).map_err(|e| format!("{e:?}"))?;
+                let other = 1 + i % (universe.len().max(2) - 1);
+                b.put(&universe[0], base, b"prefill").map_err(|e| format!("{e:?}"))?;
+                if other < universe.len() {
+                    b.put(&universe[other], base + 1, b"prefill").map_err(|e| format!("{e:?}"))?;
+                }
+                b.seal().map_err(|e| format!("{e:?}"))?;
+                Ok(())
+            })();
+            if built.is_err() {
+                break;
+            }
+            // never ingest into a stalled tree while single-threaded
+            let mut guard = 0;
+            while tree.verif_should_stall() && guard < 64 {
+                let _ = tree.compaction_thread();
+                guard += 1;
+            }
+            if tree.verif_should_stall() || tree.ingest(&path).is_err() {
+                break;
+            }
+            let _ = std::fs::remove_file(&path);
+            for _ in 0..64 {
+                if tree.compaction_thread().is_err() || verif::last_idle() {
+                    break;
+                }
+            }
+        }
+        verif::set_step_mode(false);
+    }
     let done = Arc::new(AtomicU64::new(0));
     let ingested = Arc::new(AtomicU64::new(0));
     let failed = Arc::new(Mutex::new(Vec::<String>::new()));
     let stalls_seen = Arc::new(AtomicBool::new(false));
     let stalls0 = verif::INGEST_STALLS.load(Ordering::SeqCst);
-    let ts = Arc::new(AtomicU64::new(1));
     let mut bg = vec![];
     for i in 0..c.compaction_threads as usize {
         let t = Arc::clone(&tree);
@@ -679,6 +725,9 @@ fn run_ingest(ctx: &Ctx, c: &IngestCase) -> Outcome {
             set_slot(ti);
             for si in 0..c2.ssts_per_thread as usize {
                 let mut keys: Vec<usize> = (0..c2.keys_per_sst as usize).map(|j| gens::sel((c2.key_sel[(ti * 17 + si * 5 + j) % c2.key_sel.len()] as u16) << 8, universe.len())).collect();
+                if c2.common_key {
+                    keys.push(0);
+                }
                 keys.sort();
                 keys.dedup();
                 let base = ts.fetch_add(keys.len() as u64 + 1, Ordering::SeqCst);
@@ -789,4 +838,347 @@ fn run_ingest(ctx: &Ctx, c: &IngestCase) -> Outcome {
         o.fail("threads:background-error", vcore::truncate(e, 400));
     }
     o
+}
+
+///////////////////////////////////////// C20 exact wake-ups ////////////////////////////////////////
+
+/// Two scenarios in which exactly one store thread is parked on a condition variable and every
+/// other actor is the harness itself, so "still parked after the event that should wake it" is an
+/// exact lost-wake-up verdict rather than a timing guess:
+///   Y: an ingest thread is parked because level 0 is at the stall threshold; the harness applies
+///      compaction steps (step mode) until level 0 is relieved; the ingest must then complete.
+///   X: a compaction thread is parked for lack of work; the harness ingests files until level 0
+///      reaches the mandatory-compaction threshold; the compaction thread must then run.
+#[derive(Clone, Debug, Serialize, Deserialize)]
+pub struct WakeCase {
+    pub stall_files: u8,
+    pub mandatory_files: u8,
+    pub nkeys: u8,
+    pub files: u8,
+    pub key_sel: Vec<u8>,
+    /// compaction steps the harness runs between ingests in scenario Y
+    pub steps_between: Vec<u8>,
+    /// overlapping files sunk into the tree first (each followed by compaction steps until idle):
+    /// with all levels occupied a stalled level 0 can only be relieved by a merge, not by the
+    /// trivial moves the selector otherwise prefers
+    #[serde(default)]
+    pub prefill: u8,
+    /// max_compaction_bytes = 8192 with ~6 KB files: merges between deeper levels are refused (the
+    /// byte limit does not apply to level-0 compactions), so overlapping files pile up one per level
+    #[serde(default)]
+    pub tight_bytes: bool,
+}
+
+pub struct Wakeups;
+
+fn build_sst(path: &std::path::Path, universe: &[Vec<u8>], keys: &[usize], base_ts: u64, tag: &str) -> Result<(), String> {
+    build_sst_sized(path, universe, keys, base_ts, tag, 0)
+}
+
+fn build_sst_sized(path: &std::path::Path, universe: &[Vec<u8>], keys: &[usize], base_ts: u64, tag: &str, pad: usize) -> Result<(), String> {
+    let _ = std::fs::remove_file(path);
+    let mut b = sst::SstBuilder::new(sst::SstOptions::default(), path).map_err(|e| format!("{e:?}"))?;
+    for (j, k) in keys.iter().enumerate() {
+        let mut v = format!("{tag}-{j}").into_bytes();
+        v.resize(v.len() + pad, b'.');
+        b.put(&universe[*k], base_ts + j as u64, &v).map_err(|e| format!("{e:?}"))?;
+    }
+    b.seal().map_err(|e| format!("{e:?}"))?;
+    Ok(())
+}
+
+fn wake_cfg(c: &WakeCase, stall: u64) -> StoreConfig {
+    StoreConfig {
+        memtable_size: 1 << 20,
+        target_file_size: 4096,
+        minimum_file_size: 4096,
+        target_block_size: 4096,
+        bytes_ri: 1024,
+        pairs_ri: 16,
+        l0_mandatory_files: c.mandatory_files.max(1) as u64,
+        l0_mandatory_bytes: 1 << 26,
+        l0_stall_files: stall,
+        l0_stall_bytes: 1 << 40,
+        max_compaction_files: 64,
+        max_compaction_bytes: if c.tight_bytes { 8192 } else { 1 << 29 },
+        gc_policy: "versions = 1".into(),
+        sst_cache_bytes: 1 << 26,
+        mani_rollover_ratio: 2,
+    }
+}
+
+fn keys_for(c: &WakeCase, universe: &[Vec<u8>], i: usize) -> Vec<usize> {
+    // every file holds the first key, so level-0 files overlap and are relieved by merges
+    let mut keys = vec![0usize];
+    for j in 0..2 {
+        keys.push(gens::sel((c.key_sel[(i * 3 + j) % c.key_sel.len()] as u16) << 8, universe.len()));
+    }
+    keys.sort();
+    keys.dedup();
+    keys
+}
+
+fn wait_until(mut f: impl FnMut() -> bool, limit: Duration) -> bool {
+    let t0 = Instant::now();
+    while t0.elapsed() < limit {
+        if f() {
+            return true;
+        }
+        std::thread::sleep(Duration::from_millis(1));
+    }
+    f()
+}
+
+impl Property for Wakeups {
+    type Case = WakeCase;
+    fn name(&self) -> String {
+        "exact-wakeups".into()
+    }
+    fn cases(&self, tier: Tier) -> u64 {
+        tier.pick(40, 1000)
+    }
+    fn max_shrink_iters(&self) -> u32 {
+        30
+    }
+    fn record_current(&self) -> bool {
+        true
+    }
+    fn strategy(&self, _: &Ctx) -> BoxedStrategy<WakeCase> {
+        (1u8..4, 0u8..2, 3u8..10, 4u8..14, prop::collection::vec(any::<u8>(), 32), prop::collection::vec(0u8..4, 16), prop_oneof![2 => Just(0u8), 1 => 1u8..15, 4 => 15u8..20], prop::bool::weighted(0.6))
+            .prop_map(|(mandatory_files, extra, nkeys, files, key_sel, steps_between, prefill, tight_bytes)| WakeCase { stall_files: mandatory_files + extra, mandatory_files, nkeys, files, key_sel, steps_between, prefill, tight_bytes })
+            .boxed()
+    }
+    fn run(&self, ctx: &Ctx, c: &WakeCase) -> Outcome {
+        use lsmtk::verif;
+        let mut o = Outcome::pass();
+        let universe = gens::universe(gens::KeyFamily::Dense, (c.nkeys as usize).max(2));
+        verif::set_yield_hook(None);
+        verif::STOP.store(false, Ordering::SeqCst);
+
+        // ---- scenario Y: a parked ingest must be woken by the compaction that relieves level 0
+        {
+            verif::set_step_mode(true);
+            let root = ctx.fresh_dir("wake-y");
+            let tree = match LsmTree::open(wake_cfg(c, c.stall_files.max(1) as u64).options(&root.to_string_lossy())) {
+                Ok(t) => Arc::new(t),
+                Err(e) => {
+                    o.fail("threads:open-error", format!("{e:?}"));
+                    return o;
+                }
+            };
+            let mut ts = 1u64;
+            let mut relieved_waits = 0;
+            let mut relieved_by_merge = 0;
+            for i in 0..c.prefill as usize {
+                let path = root.join("ingest").join(format!("prefill-{i}.sst"));
+                let keys = keys_for(c, &universe, 1000 + i);
+                if build_sst_sized(&path, &universe, &keys, ts, &format!("p{i}"), if c.tight_bytes { 2600 } else { 0 }).is_err() {
+                    break;
+                }
+                ts += keys.len() as u64 + 1;
+                let mut guard = 0;
+                while tree.verif_should_stall() && guard < 200 {
+                    let _ = tree.compaction_thread();
+                    guard += 1;
+                }
+                if tree.verif_should_stall() || tree.ingest(&path).is_err() {
+                    break;
+                }
+                let _ = std::fs::remove_file(&path);
+                for _ in 0..200 {
+                    if tree.compaction_thread().is_err() || verif::last_idle() {
+                        break;
+                    }
+                }
+            }
+            'files: for i in 0..c.files as usize {
+                let path = root.join("ingest").join(format!("y-{i}.sst"));
+                let keys = keys_for(c, &universe, i);
+                if build_sst_sized(&path, &universe, &keys, ts, &format!("y{i}"), if c.tight_bytes { 2600 } else { 0 }).is_err() {
+                    break;
+                }
+                ts += keys.len() as u64 + 1;
+                if !tree.verif_should_stall() {
+                    if let Err(e) = tree.ingest(&path) {
+                        o.fail("threads:op-error", format!("ingest failed: {e:?}"));
+                        break;
+                    }
+                } else {
+                    let parked0 = verif::PARKED.load(Ordering::SeqCst);
+                    let t = Arc::clone(&tree);
+                    let p = path.clone();
+                    let a = std::thread::spawn(move || t.ingest(&p).map_err(|e| format!("{e:?}")));
+                    if !wait_until(|| verif::PARKED.load(Ordering::SeqCst) > parked0 || a.is_finished(), Duration::from_secs(3)) {
+                        o.inconclusive = true;
+                        std::mem::forget(a);
+                        break;
+                    }
+                    // relieve level 0 with harness-driven compaction steps
+                    let bound = lsmtk::NUM_LEVELS * 40;
+                    let mut relieved = false;
+                    let mut last_kind = 0;
+                    for _ in 0..bound {
+                        if !tree.verif_should_stall() {
+                            relieved = true;
+                            break;
+                        }
+                        if tree.compaction_thread().is_err() || verif::last_idle() {
+                            break;
+                        }
+                        last_kind = verif::last_kind();
+                    }
+                    if relieved && last_kind != verif::KIND_TRIVIAL_MOVE {
+                        relieved_by_merge += 1;
+                    }
+                    if !relieved {
+                        // the selector is idle while stalled: the deterministic part owns that
+                        verif::STOP.store(true, Ordering::SeqCst);
+                        tree.verif_wake_all();
+                        let _ = a.join();
+                        verif::STOP.store(false, Ordering::SeqCst);
+                        o.label("selector-idle-while-stalled");
+                        break 'files;
+                    }
+                    // level 0 is below the threshold, nobody else runs: the ingest must complete
+                    if !wait_until(|| a.is_finished(), Duration::from_secs(3)) {
+                        let still_parked = verif::PARKED.load(Ordering::SeqCst) > parked0;
+                        if still_parked && !tree.verif_should_stall() {
+                            o.fail("wakeup:ingest-not-woken", format!("an ingest parked on the write stall is still parked 3 s after the compaction that brought level 0 below the stall threshold was applied, and no other store thread exists (stall threshold {} files)", c.stall_files));
+                        } else {
+                            o.inconclusive = true;
+                        }
+                        verif::STOP.store(true, Ordering::SeqCst);
+                        tree.verif_wake_all();
+                        let _ = a.join();
+                        verif::STOP.store(false, Ordering::SeqCst);
+                        break 'files;
+                    }
+                    match a.join() {
+                        Ok(Ok(())) => relieved_waits += 1,
+                        Ok(Err(e)) => {
+                            o.fail("threads:op-error", format!("a stalled ingest failed after being woken: {e}"));
+                            break 'files;
+                        }
+                        Err(_) => {
+                            o.fail("threads:op-error", "ingest thread panicked".to_string());
+                            break 'files;
+                        }
+                    }
+                }
+                let _ = std::fs::remove_file(&path);
+                for _ in 0..c.steps_between[i % c.steps_between.len()] {
+                    let _ = tree.compaction_thread();
+                }
+            }
+            if relieved_waits > 0 {
+                o.label("parked-ingest-woken-by-compaction");
+                o.nontrivial = true;
+            }
+            if relieved_by_merge > 0 {
+                o.label("relieving-compaction-was-a-merge-or-gc");
+            }
+            drop(tree);
+            let _ = std::fs::remove_dir_all(&root);
+            if o.failed() || o.inconclusive {
+                verif::set_step_mode(false);
+                return o;
+            }
+        }
+
+        // ---- scenario X: a parked compaction thread must be woken by the ingest that creates work
+        {
+            verif::set_step_mode(false);
+            let root = ctx.fresh_dir("wake-x");
+            let tree = match LsmTree::open(wake_cfg(c, 1_000_000).options(&root.to_string_lossy())) {
+                Ok(t) => Arc::new(t),
+                Err(e) => {
+                    o.fail("threads:open-error", format!("{e:?}"));
+                    return o;
+                }
+            };
+            let parked0 = verif::PARKED.load(Ordering::SeqCst);
+            let t = Arc::clone(&tree);
+            let b = std::thread::spawn(move || t.compaction_thread().map_err(|e| format!("{e:?}")));
+            let quiescent = |limit: Duration| -> bool {
+                // parked, and no progress for 20 ms
+                let mut last = verif::PROGRESS.load(Ordering::SeqCst);
+                let mut stable = Instant::now();
+                wait_until(
+                    || {
+                        let p = verif::PROGRESS.load(Ordering::SeqCst);
+                        if p != last {
+                            last = p;
+                            stable = Instant::now();
+                        }
+                        verif::PARKED.load(Ordering::SeqCst) > parked0 && stable.elapsed() > Duration::from_millis(20)
+                    },
+                    limit,
+                )
+            };
+            let mut ts = 1u64;
+            let mut woken = 0;
+            if quiescent(Duration::from_secs(3)) {
+                for i in 0..c.files as usize {
+                    let path = root.join("ingest").join(format!("x-{i}.sst"));
+                    let keys = keys_for(c, &universe, i);
+                    if build_sst(&path, &universe, &keys, ts, &format!("x{i}")).is_err() {
+                        break;
+                    }
+                    ts += keys.len() as u64 + 1;
+                    let before = verif::PROGRESS.load(Ordering::SeqCst);
+                    if let Err(e) = tree.ingest(&path) {
+                        o.fail("threads:op-error", format!("ingest failed: {e:?}"));
+                        break;
+                    }
+                    let _ = std::fs::remove_file(&path);
+                    let l0 = tree.verif_levels()[0].len();
+                    if l0 >= c.mandatory_files.max(1) as usize {
+                        // the ingest itself counts as one progress event; the compaction thread
+                        // must add another
+                        if !wait_until(|| verif::PROGRESS.load(Ordering::SeqCst) > before + 1, Duration::from_secs(3)) {
+                            if verif::PARKED.load(Ordering::SeqCst) > parked0 && tree.verif_levels()[0].len() >= c.mandatory_files.max(1) as usize {
+                                o.fail("wakeup:compaction-not-woken", format!("the compaction thread is still parked 3 s after an ingest brought level 0 to {} files (mandatory threshold {}), and no other store thread exists", l0, c.mandatory_files));
+                            } else {
+                                o.inconclusive = true;
+                            }
+                            break;
+                        }
+                        woken += 1;
+                    }
+                    if !quiescent(Duration::from_secs(10)) {
+                        o.inconclusive = true;
+                        break;
+                    }
+                }
+            } else {
+                o.inconclusive = true;
+            }
+            if woken > 0 {
+                o.label("parked-compaction-thread-woken-by-ingest");
+            }
+            verif::STOP.store(true, Ordering::SeqCst);
+            let ok = wait_until(
+                || {
+                    tree.verif_wake_all();
+                    b.is_finished()
+                },
+                Duration::from_secs(10),
+            );
+            if ok {
+                if let Ok(Err(e)) = b.join() {
+                    if !o.failed() {
+                        o.fail("threads:background-error", vcore::truncate(&e, 300));
+                    }
+                }
+                drop(tree);
+                let _ = std::fs::remove_dir_all(&root);
+            } else {
+                std::mem::forget(b);
+                std::mem::forget(tree);
+                o.inconclusive = true;
+            }
+            verif::STOP.store(false, Ordering::SeqCst);
+        }
+        o
+    }
 }
